@@ -180,6 +180,10 @@ def gen_interaction(rng, iid, opts, cfgs):
         else:
             ia['sub']['cancel_at'] = _pick(rng, [(2, 0.0), (2, round(rng.uniform(0, 0.01), 5))])
             ia['sub']['cancel_hops'] = rng.randint(0, 6)
+    if kind in ('stream', 'channel') and rng.random() < opts.get('awaitable', 0.0) and 'cancel_after' not in ia['sub'] \
+            and 'cancel_at' not in ia['sub']:
+        ia['api'] = 'awaitable'
+        ia['sub'] = {'initial_n': ia['sub'].get('initial_n', MAXN)}
     if rng.random() < opts.get('hdelay', 0.15) and kind in ('rr', 'stream', 'channel'):
         ia['resp']['hdelay'] = _pick(rng, [(1, ['hops', rng.randint(1, 4)]), (1, ['time', _pick(rng, [(1, 0.0005), (1, 0.005)])])])
     return ia
